@@ -221,10 +221,10 @@ func body(c Case, virtual bool) Outcome {
 	} else {
 		select {
 		case res = <-done:
-		case <-time.After(90 * time.Second):
+		case <-time.After(30 * time.Second):
 			buf := make([]byte, 1<<16)
 			buf = buf[:runtime.Stack(buf, true)]
-			out.Hang = "Walk did not return within 90 s on the real scheduler\n" + string(buf[:min(len(buf), 6000)])
+			out.Hang = "Walk did not return within 30 s on the real scheduler\n" + string(buf[:min(len(buf), 6000)])
 			cancel()
 			return out
 		}
